@@ -40,6 +40,7 @@ func ActiveNow() time.Duration { return time.Duration(atomic.LoadInt64(&activeNS
 // WaitActive polls cond until it holds or the active-time budget is used up.
 func WaitActive(budget, poll time.Duration, cond func() bool) bool {
 	start := ActiveNow()
+	nap := 20 * time.Microsecond // adaptive: most conditions hold almost at once
 	for {
 		if cond() {
 			return true
@@ -47,7 +48,10 @@ func WaitActive(budget, poll time.Duration, cond func() bool) bool {
 		if ActiveNow()-start > budget {
 			return cond()
 		}
-		time.Sleep(poll)
+		time.Sleep(nap)
+		if nap < poll {
+			nap *= 2
+		}
 	}
 }
 
@@ -64,7 +68,7 @@ func DoActive(budget time.Duration, f func()) bool {
 		select {
 		case <-done:
 			return true
-		case <-time.After(20 * time.Millisecond):
+		case <-time.After(10 * time.Millisecond):
 			if ActiveNow()-start > budget {
 				select {
 				case <-done:
